@@ -121,8 +121,11 @@ pub fn run_mode(ctx: &mut Ctx, mode: Mode) -> Result<(), Violation> {
         let openers: Vec<Opener> = ALL_OPENERS
             .iter()
             .copied()
-            .filter(|o| o.kind() == kind && (mode == Mode::C02 || o.writes_caller_buffer()))
+            .filter(|o| o.kind() == kind)
             .collect();
+        // C17: the error returned for a rejected input must not depend on the rejected bytes (e.g. carry the
+        // computed MAC): two rejected inputs of the same shape must produce the same error text.
+        let mut err_texts: std::collections::HashMap<(String, usize, usize), (String, String)> = Default::default();
         for fault in &fl {
             if *fault != Fault::None {
                 // guard the harness's own fault construction: the reference must reject it too
@@ -133,6 +136,49 @@ pub fn run_mode(ctx: &mut Ctx, mode: Mode) -> Result<(), Violation> {
                 }
             }
             for &op in &openers {
+                if mode == Mode::C02 && *fault != Fault::None {
+                    // (a) extension presented to a caller with a fixed-size plaintext buffer must not be accepted
+                    if let Fault::Extend(..) = fault {
+                        if open_fixed_buffer_accepts(op, &apply(&auth, fault), auth.msg.len()) == Some(true) {
+                            let c = Case { material: auth.clone(), fault: fault.clone(), opener: op };
+                            return Err(Violation::new(pid, "aead-fault-fixed-buffer", format!("{}: an extended ciphertext ({fault:?}) was ACCEPTED when the caller's message buffer has the size of the original plaintext", op.name()), serde_json::to_value(&c).unwrap()));
+                        }
+                        ev.eval(1);
+                    }
+                    // (b) stream: after the tampered message is rejected, the untampered one is still accepted on the same state
+                    if let Some((r1, Some(r2))) = stream_pull_then_authentic(op, &apply(&auth, fault), &auth) {
+                        ev.eval(1);
+                        ev.class(&format!("{}:authentic-after-rejected", op.name()));
+                        if r1.is_err() && r2.as_deref().ok() != Some(&auth.msg[..]) {
+                            let c = Case { material: auth.clone(), fault: fault.clone(), opener: op };
+                            return Err(Violation::new(pid, "aead-fault-then-authentic", format!("{}: after rejecting a tampered message ({fault:?}) the untampered message was not accepted on the same pull state: {:?}", op.name(), r2.err()), serde_json::to_value(&c).unwrap()));
+                        }
+                    }
+                }
+                if mode == Mode::C17 && *fault != Fault::None {
+                    let fm = apply(&auth, fault);
+                    if let Some(Ok(o)) = open_caught(op, &fm) {
+                        let err_text: Option<String> = match &o.result {
+                            Err(t) if t != "prior message rejected" => Some(t.clone()), // (that text is the harness's own)
+                            _ => None,
+                        };
+                        if let Some(text) = &err_text {
+                            let key = (op.name(), fm.wire().len(), fm.ad.as_ref().map_or(usize::MAX, |a| a.len()));
+                            let this = format!("{fault:?}");
+                            match err_texts.get(&key) {
+                                None => {
+                                    err_texts.insert(key, (text.clone(), this));
+                                }
+                                Some((first_text, first_fault)) => {
+                                    if first_text != text {
+                                        let c = Case { material: auth.clone(), fault: fault.clone(), opener: op };
+                                        return Err(Violation::new(pid, "aead-fault-error-text", format!("{}: the error returned for a rejected input depends on the rejected bytes: fault {first_fault} gave \"{first_text}\" but fault {this} (same lengths) gave \"{text}\"", op.name()), serde_json::to_value(&c).unwrap()));
+                                    }
+                                }
+                            }
+                        }
+                    }
+                }
                 let r = check_one(mode, &auth, fault, op);
                 match r {
                     Ok(false) => {}
@@ -181,6 +227,33 @@ pub fn run(ctx: &mut Ctx) -> Result<(), Violation> {
 
 pub fn replay_mode(v: &Violation, mode: Mode) -> Result<(), String> {
     let c: Case = from_case(&v.case)?;
+    match v.kind.as_str() {
+        "aead-fault-fixed-buffer" => {
+            if open_fixed_buffer_accepts(c.opener, &apply(&c.material, &c.fault), c.material.msg.len()) == Some(true) {
+                return Err("extended ciphertext accepted with a fixed-size caller buffer".into());
+            }
+            return Ok(());
+        }
+        "aead-fault-then-authentic" => {
+            if let Some((r1, Some(r2))) = stream_pull_then_authentic(c.opener, &apply(&c.material, &c.fault), &c.material) {
+                if r1.is_err() && r2.as_deref().ok() != Some(&c.material.msg[..]) {
+                    return Err("untampered message not accepted after a rejected tampered one".into());
+                }
+            }
+            return Ok(());
+        }
+        "aead-fault-error-text" => {
+            // compare against a reference fault of the same shape (first tag/ciphertext bit flip)
+            let reference = if c.material.kind == Kind::Stream { Fault::FlipCt(8) } else { Fault::FlipTag(0) };
+            let t = |f: &Fault| open_caught(c.opener, &apply(&c.material, f)).and_then(|r| r.ok()).and_then(|o| o.result.err());
+            let (a, b) = (t(&reference), t(&c.fault));
+            if a.is_some() && b.is_some() && a != b && apply(&c.material, &reference).wire().len() == apply(&c.material, &c.fault).wire().len() {
+                return Err(format!("error text depends on the rejected bytes: {a:?} vs {b:?}"));
+            }
+            return Ok(());
+        }
+        _ => {}
+    }
     check_one(mode, &c.material, &Fault::None, c.opener)?;
     check_one(mode, &c.material, &c.fault, c.opener).map(|_| ())
 }
